@@ -8,6 +8,8 @@ import sys
 import time
 import traceback
 
+import z3
+
 from . import prepare
 from .engine import Unsupported
 from .native import Native
@@ -36,6 +38,7 @@ def load_known():
 
 class Check:
     def __init__(self, pid, level='model_checking'):
+        z3.set_param('timeout', 20000)          # no ad-hoc query may run longer than 20 s; unknown is never success
         self.pid = pid
         self.level = level
         self.tier = os.environ.get('VERIF_TIER', 'quick')
